@@ -1511,6 +1511,37 @@ class Builder:
             cs = self._bool_cs(body, var)
             if cs is not None:
                 return ("cs", cs)
+            # any other predicate (a helper of the crate, a table lookup, a trait method on char): decided by evaluating the
+            # closure on every ASCII character and on samples of the rest (nothing is compiled or run: vlib/probe.py)
+            cs = self._pred_by_evaluation(a, env)
+            if cs is not None:
+                return ("cs", cs)
+        return None
+
+    def _pred_by_evaluation(self, clo, env):
+        from . import probe as P
+
+        fn0 = env.get("__fn")
+        try:
+            pr = P.Probe(self.facts, F.norm_ty(fn0.impl["self_ty"]).split("<")[0] if fn0 is not None and getattr(fn0, "impl", None) else None, tuple(env.get("__module") or ()))
+            fv = pr.ev(clo, {})
+            yes, no = [], []
+            for code in range(0, 128):
+                ch = chr(code)
+                r_ = pr.apply(fv, [ch])
+                if r_ is True:
+                    yes.append(ch)
+                elif r_ is False:
+                    no.append(ch)
+                else:
+                    return None
+            rest = [pr.apply(fv, [ch]) for ch in ("\u00e9", "\u00a0", "\u2009", "\u3000", "\u65e5", "\U0001f600")]
+        except (P.NoEval, P.Panic, KeyError, AttributeError, TypeError):
+            return None
+        if all(r_ is False for r_ in rest):
+            return cs_in(yes)
+        if all(r_ is True for r_ in rest):
+            return cs_notin(no)
         return None
 
     def _tok_pat(self, p):
